@@ -88,19 +88,102 @@ pub fn eval(payload: &str) -> String {
     format!("{r} polls={}", wd.polls.get())
 }
 
-/// The same program under several iteration orders: `ORDERS=<k>` answers joined by ` ### `.
+/// Runs the VM once and then the type checker phase by phase.
+fn staged(order: &str, cfg: &str, bytes: &[u8], dump_judgements: bool) -> (String, String) {
+    use storage_layout_extractor::{disassembly::InstructionStream, tc::TypeChecker, vm::VM};
+    use storage_layout_extractor::data::vector_map::FromUniqueIndex;
+    let wd: Rc<dyn Watchdog> = Rc::new(CountingWatchdog { polls: Cell::new(0), stop_at: 3_000_000, every: 1 });
+    let stream = match InstructionStream::try_from(bytes) {
+        Ok(s) => s,
+        Err(e) => return (format!("res=err kinds=[{}:D.{}]", e.location, crate::fam::disasm::err_name(&e.payload)), String::new()),
+    };
+    set_order(order);
+    let out = (|| {
+        let mut machine = match VM::new(stream, vm::parse_cfg(cfg), wd.clone()) {
+            Ok(v) => v,
+            Err(e) => return (format!("res=err kinds=[{}:X.{}]", e.location, vm::err_name(&e.payload)), String::new()),
+        };
+        if let Err(es) = machine.execute() {
+            let items: Vec<String> = es.payloads().iter().map(|e| format!("{}:X.{}", e.location, vm::err_name(&e.payload))).collect();
+            return (format!("res=err kinds=[{}]", items.join(";")), String::new());
+        }
+        let result = machine.consume();
+        let mut checker = TypeChecker::new(tc::Config::default(), wd.clone());
+        let uerr = |es: &storage_layout_extractor::error::unification::Errors| {
+            let items: Vec<String> = es
+                .payloads()
+                .iter()
+                .map(|e| format!("{}:U.{}", e.location, format!("{:?}", e.payload).split(|c: char| !c.is_alphanumeric()).next().unwrap_or("?")))
+                .collect();
+            format!("res=err kinds=[{}]", items.join(";"))
+        };
+        let lifted = match checker.lift(result) {
+            Ok(v) => v,
+            Err(es) => return (uerr(&es), String::new()),
+        };
+        if let Err(es) = checker.assign_vars(lifted) {
+            return (uerr(&es), String::new());
+        }
+        if let Err(es) = checker.infer() {
+            return (uerr(&es), String::new());
+        }
+        let mut dump = String::new();
+        if dump_judgements {
+            let n = checker.state().tyvar_count();
+            let mut js: Vec<String> = vec![];
+            for v in 0..n {
+                let tvar = storage_layout_extractor::tc::state::type_variable::TypeVariable::from_index(v);
+                let mut es: Vec<String> =
+                    checker.state().inferences(tvar).iter().map(crate::fam::types::te_text).collect();
+                es.sort();
+                for e in es {
+                    js.push(format!("{v}>{e}"));
+                }
+            }
+            dump = format!("{n} {}", js.join(" "));
+        }
+        match checker.unify() {
+            Ok(l) => (format!("res=ok layout={}", layout_text(&l)), dump),
+            Err(es) => (uerr(&es), dump),
+        }
+    })();
+    set_order("natural");
+    out
+}
+
+/// The same program under several iteration orders: the answers joined by ` ### `, followed by
+/// ` @@@ <nvars> <judgements…>` (the typing judgements the inference rules produced under the
+/// `sorted` order, for attribution of an order dependence).
 pub fn eval_orders(payload: &str) -> String {
     let t: Vec<&str> = payload.split_whitespace().collect();
     let bytes = util::hex_to_bytes(t[1]);
     let orders = ["natural", "reversed", "sorted", "seed1", "seed2", "seed3", "seed4", "natural"];
+    let mut dump = String::new();
     let outs: Vec<String> = orders
         .iter()
-        .map(|o| util::guarded(|| {
-            let wd = Rc::new(CountingWatchdog { polls: Cell::new(0), stop_at: 3_000_000, every: 1 });
-            run(o, t[0], &bytes, wd)
-        }))
+        .map(|o| {
+            let want = *o == "sorted";
+            let r = std::panic::catch_unwind(std::panic::AssertUnwindSafe(|| staged(o, t[0], &bytes, want)));
+            match r {
+                Ok((text, d)) => {
+                    if want {
+                        dump = d;
+                    }
+                    text
+                }
+                Err(_) => {
+                    set_order("natural");
+                    "PANIC".to_string()
+                }
+            }
+        })
         .collect();
-    outs.join(" ### ")
+    let distinct: std::collections::HashSet<&String> = outs.iter().collect();
+    if distinct.len() > 1 {
+        format!("{} @@@ {}", outs.join(" ### "), dump)
+    } else {
+        outs.join(" ### ")
+    }
 }
 
 #[allow(dead_code)]
